@@ -89,8 +89,13 @@ def ob_tz_sum(h):
     for j in range(nh):
         h.check("each_hot_utility_is_sum_of_zones", h.eq(res["hot_utilities"][j].heat_flow, sum([r.hot_utilities[j].heat_flow for r in recs], 0.0)))
         h.check("summed_utility_keeps_its_level", res["hot_utilities"][j].t_supply == HOT_LEVELS[j][0])
+        u = res["hot_utilities"][j]
+        # the site cascade is built from the heat-capacity flow rate: it has to go with the summed duty
+        h.check("summed_utility_heat_capacity_goes_with_its_duty", h.eq(u.CP * (u.t_max - u.t_min), u.heat_flow))
     for j in range(nc):
         h.check("each_cold_utility_is_sum_of_zones", h.eq(res["cold_utilities"][j].heat_flow, sum([r.cold_utilities[j].heat_flow for r in recs], 0.0)))
+        u = res["cold_utilities"][j]
+        h.check("summed_utility_heat_capacity_goes_with_its_duty", h.eq(u.CP * (u.t_max - u.t_min), u.heat_flow))
     # the zone's own utility objects and the zones' records are not written to
     for j in range(nh):
         h.check("zone_utilities_untouched", zone.hot_utilities[j].heat_flow == 7.0)
